@@ -15,6 +15,7 @@ import (
 	"sort"
 	"strconv"
 	"strings"
+	"sync"
 	"testing"
 	"testing/synctest"
 	"time"
@@ -476,7 +477,13 @@ func judge(want, full map[string]rec, collided map[string]bool, ps []payload.Pay
 
 // send hands mm to a freshly built backend of the variant inside a bubble and returns what reached its transport
 func send(t *testing.T, vr bk.Variant, c *ccase, disabled gostatsd.TimerSubtypes, mm *gostatsd.MetricMap, ev *gostatsd.Event) (env *bk.Env, cbErrs []error, cbN int, panicked any) {
+	return sendAll(t, vr, c, disabled, []*gostatsd.MetricMap{mm}, ev)
+}
+
+// sendAll hands the maps to one backend at the same time, the way the flusher does with the maps of several aggregators
+func sendAll(t *testing.T, vr bk.Variant, c *ccase, disabled gostatsd.TimerSubtypes, mms []*gostatsd.MetricMap, ev *gostatsd.Event) (env *bk.Env, cbErrs []error, cbN int, panicked any) {
 	synctest.Test(t, func(t *testing.T) {
+		var mu sync.Mutex
 		env = bk.NewEnv()
 		env.MetricsPerBatch = c.Cfg.Batch
 		env.NoCompress = !c.Cfg.Compress
@@ -491,26 +498,38 @@ func send(t *testing.T, vr bk.Variant, c *ccase, disabled gostatsd.TimerSubtypes
 		}
 		ctx, cancel := context.WithCancel(context.Background())
 		stop := env.Start(ctx, b)
-		done := make(chan struct{})
-		go func() {
-			defer close(done)
-			defer func() { panicked = recover() }()
-			if ev != nil {
-				if err := b.SendEvent(env.Context(ctx), ev); err != nil {
-					cbErrs = append(cbErrs, err)
+		var done sync.WaitGroup
+		for _, mm := range mms {
+			mm := mm
+			done.Add(1)
+			go func() {
+				defer done.Done()
+				defer func() {
+					if x := recover(); x != nil {
+						mu.Lock()
+						panicked = x
+						mu.Unlock()
+					}
+				}()
+				if ev != nil {
+					if err := b.SendEvent(env.Context(ctx), ev); err != nil {
+						cbErrs = append(cbErrs, err)
+					}
+					cbN = 1
+					return
 				}
-				cbN = 1
-				return
-			}
-			b.SendMetricsAsync(env.Context(ctx), mm, func(errs []error) {
-				cbN++
-				cbErrs = append(cbErrs, errs...)
-			})
-		}()
+				b.SendMetricsAsync(env.Context(ctx), mm, func(errs []error) {
+					mu.Lock()
+					defer mu.Unlock()
+					cbN++
+					cbErrs = append(cbErrs, errs...)
+				})
+			}()
+		}
 		synctest.Wait()
 		time.Sleep(2 * time.Second)
 		synctest.Wait()
-		<-done
+		done.Wait()
 		stop()
 		cancel()
 		if p := env.RunPanic(); p != nil && panicked == nil {
@@ -750,6 +769,27 @@ func fill(total int) ([]*gostatsd.Metric, []payload.Series) {
 	return ms, ss
 }
 
+const concEvery = 7
+
+// crowd: many plain series, so that several aggregators have a real share each
+func crowd(n int) ([]*gostatsd.Metric, []payload.Series) {
+	var ms []*gostatsd.Metric
+	var ss []payload.Series
+	for i := 0; i < n; i++ {
+		name := fmt.Sprintf("w%d.req", i)
+		tags := gostatsd.Tags{fmt.Sprintf("shard:%d", i%7), "env:prod"}
+		src := gostatsd.Source(fmt.Sprintf("10.1.%d.%d", i%3, i%11))
+		if i%2 == 0 {
+			ms = append(ms, &gostatsd.Metric{Name: name, Type: gostatsd.COUNTER, Value: float64(i + 1), Rate: 1, Tags: tags, Source: src})
+			ss = append(ss, payload.Series{Kind: "counter", Name: name})
+		} else {
+			ms = append(ms, &gostatsd.Metric{Name: "g-" + name, Type: gostatsd.GAUGE, Value: float64(i) + 0.5, Rate: 1, Tags: tags, Source: src})
+			ss = append(ss, payload.Series{Kind: "gauge", Name: "g-" + name})
+		}
+	}
+	return ms, ss
+}
+
 var relayEvents = []*gostatsd.Event{
 	{Title: "t", Text: "x", Source: "h1"},
 	{Title: "deploy 1.2", Text: "line one\nline two", DateHappened: 1700000000, AggregationKey: "agg", SourceTypeName: "src", Tags: gostatsd.Tags{"env:x", "solo"},
@@ -851,9 +891,15 @@ func TestPayloads(t *testing.T) {
 		if c.Label == "fill" {
 			subs = []int{1471, 1472, 1473, 1474, 2944, 2945}
 		}
+		if idx%concEvery == 3 && c.Label == "" {
+			subs = append(subs, -1) // the flush of several aggregators at once
+		}
 		for _, sub := range subs {
 			var extra []*gostatsd.Metric
 			var extraSeries []payload.Series
+			if sub == -1 {
+				extra, extraSeries = crowd(480)
+			}
 			if sub > 0 {
 				extra, extraSeries = fill(sub)
 				if sub > 2000 { // two datagrams' worth
@@ -876,13 +922,19 @@ func TestPayloads(t *testing.T) {
 				if sub > 0 && fam != "statsdaemon" {
 					continue // the filling series are made for the relay's datagram size (their names are too long for CloudWatch)
 				}
-				env, cbErrs, cbN, panicked := send(t, vr, &c, b.disabled, mm, nil)
+				mms := []*gostatsd.MetricMap{mm}
+				if sub == -1 {
+					// every aggregator hands its own map to every backend from its own goroutine: the flush is what they emit together
+					mms = mm.Split(6)
+					res.Hit("concurrent-flushes")
+				}
+				env, cbErrs, cbN, panicked := sendAll(t, vr, &c, b.disabled, mms, nil)
 				if panicked != nil {
 					res.Fail("C17", "panic:"+vr.Name, fmt.Sprintf("%s panicked while sending a flush: %v", vr.Name, panicked), c)
 					env.Close()
 					continue
 				}
-				if cbN != 1 || len(cbErrs) != 0 {
+				if cbN != len(mms) || len(cbErrs) != 0 {
 					res.Note("%s case %d: callback calls=%d errors=%v", vr.Name, idx, cbN, cbErrs)
 				}
 				var fr *flushResult
